@@ -18,6 +18,10 @@ CLAIMED = {
    text="Invariant walker evaluated after every step (successful or failed) of every history on the subject alone: the full closure of candidate paths (alphabet to depth 3 plus everything listed) is probed with Stat/Open/handle Stat/ReadDir and must form a well-formed tree (root is a directory, every existing path has a directory parent that lists it, every listed entry resolves with agreeing kinds, no duplicates). Termination is decided on logical steps (<=3000 store calls per operation) with the child-process watchdog behind it. Subjects: keyvalue.FS over the real mem store and over a plain Store, mount.FS with four mount points (nested and look-alike), Sub views incl. nested and of mounts. Cases: C01 matrix + root/own-subtree directed histories on every subject + 250 (quick) / 8000 (thorough) random histories per subject.",
    note="The store-call budget stands in for 'every operation terminates'. Sub-view histories do not remove/rename the view's top directory. Known findings F52/F28 (mount-point directories can be removed or moved away) are keyed by the coarse situation 'covers-mountpoint' and not issued inside random histories.",
    technique="runtime invariant monitor (closure walker) over generated histories with a logical-step termination budget"),
+ "C02": dict(level="exploration", design="4/C02",
+   text="Differential runtime monitor against *os.File: the handle matrix (9 handle kinds x every call x argument classes around offset and size, each also after another handle grew or shrank the file; ~5700 scripts) and 20k (quick) / 200k (thorough) random scripts of up to 40/80 calls over 1..3 handles. After every call: n, bytes, success/failure with end-of-file normalised as io.Reader/io.ReaderAt allow (EOF flagged as early if bytes remain; short ReadAt with nil error flagged), every open handle's offset, handle Stat, and the file's fresh contents are compared with the os package.",
+   note="Reference is *os.File on Linux tmpfs. Zero-length transfers and Seek/Stat on directory handles are compared by resulting state only (os does not consult the access mode for zero-length calls; directory seeking is OS-specific). keyvalue.FS over a plain Store runs single-handle scripts only (each handle owns a snapshot by the FileRecord contract). Known: directory handle Read reports EOF (F14).",
+   technique="differential testing of handle call scripts against os.File with EOF normalisation and per-call state comparison"),
 }
 NOT_YET = "monitor not built yet in this session (see DESIGN.md section 4 for the planned runtime monitor)"
 props = [json.loads(l)["id"] for l in open("/verif/properties.jsonl")]
